@@ -1,6 +1,7 @@
 package props
 
 import (
+	"bytes"
 	"fmt"
 	"reflect"
 	"sort"
@@ -143,6 +144,8 @@ func c18Ctx(variant int) map[string]interface{} {
 		"st":   c18Struct{Name: "s", Items: c18Spare(2, 1), Tags: c18SpareStr("t2", "t1"), Meta: map[string]interface{}{"k": "v"}, Ptr: inner, priv: []int{1, 2}},
 		"pst":  &c18Struct{Name: "ps", Items: c18Spare("b", "a"), Tags: c18SpareStr("u2", "u1"), Meta: map[string]interface{}{"k": c18Spare(1)}, Ptr: inner},
 		"s":    "hello world", "n": 5, "pn": inner,
+		"buf": bytes.NewBufferString("buffered <fragment>"), "page": map[string]interface{}{"body": bytes.NewBufferString("page body")},
+		"parts": []interface{}{bytes.NewBufferString("part one"), bytes.NewBufferString("part two"), "plain"}, "rdr": strings.NewReader("reader text"),
 		"pairs": map[string]interface{}{"hello": "Ann", "": "-", "o": "0", " ": "_"},
 		"spk":   map[string]interface{}{"": 1, " ": 2, "0": 3, "00": 4, "-1": 5, "k": c18Spare(1)},
 		"row":   map[string]interface{}{"pairs": map[string]interface{}{"": "x", "l": "L"}, "spk": map[string]string{"": "e", "0": "z"}},
@@ -275,7 +278,12 @@ func c18Templates(r *core.Rand) (map[string]string, bool) {
 	srcs := map[string]string{"inc": "{% set got = got|default([])|merge([1]) %}{% set xs = [] %}{% for i in got %}{% set i = 0 %}{% endfor %}{{ got|sort|reverse|join }}{{ passed|sort|join }}",
 		"lib": "{% macro mut(a, b) %}{% set a = a|merge([7])|sort %}{% set b = b|reverse %}{{ a|join }}{{ b|join }}{% endmacro %}"}
 	var t string
-	switch r.Intn(20) {
+	switch r.Intn(21) {
+	case 20:
+		// values of the caller's that can be read only once if read the wrong way (buffers, readers): printing them, plainly
+		// or through filters, reads their text and leaves them as they are
+		bv := []string{"buf", "page.body", "parts", "parts[0]", "rdr"}[r.Intn(5)]
+		t = "{{ " + bv + " }}|{{ " + bv + " }}|{% for p in parts %}{{ p }}{% endfor %}|{{ page.body }}{{ buf ~ '' }}|{{ " + bv + "|" + f1 + " }}|{% set held = " + bv + " %}{{ held }}{{ rdr }}"
 	case 19:
 		// maps of the caller's with unusual keys (empty, blank, digits) handed to filters and functions as an argument
 		pv := []string{"pairs", "row.pairs", "spk", "row.spk", "m", "tm"}[r.Intn(6)]
